@@ -235,12 +235,12 @@ API_TEXT = {
  "C11": ("loop transparency lemmas on S", "loops closed inside their defining transaction, misuse panics"),
  "C12": ("M_txn phase-order theorems + facts regenerated from the source (queue of hold commit / once detach / defer)", "defer/split/post with cells, both construction orders"),
  "C13": ("lift/map invariants on S", "towers of map/lift over sinks, holds, loops and switches"),
- "C14": ("M_txn bracket/quiescence theorems", "deep nesting of closure and scoped transactions, idle observables"),
+ "C14": ("M_txn bracket/quiescence theorems (quiescent_after_close for every set of closures the propagation pushes, set-up closures that queue more set-up work included)", "deep nesting of closure and scoped transactions, idle observables, FRP built by handlers and mapping functions while the transaction closes"),
  "C15": ("send fold theorem on S.addSend", "coalescing sinks with several sends per transaction over nested transactions"),
  "C17": ("Lazy memo-cell theorems + S lazy snapshot semantics", "lazies taken and forced at varying delays"),
  "C18": ("router = filter equation of S", "routers with duplicate keys, routes requested at any time"),
  "C06": ("collector soundness theorems on M_gc, lifted to the collector graph of every API program by M_struct (run_reachable, struct_sound: recipes of every primitive as client operations of M_gc, compared with the real collector graph at every graphdump, level L-struct) + contract check of the real gc graph", "drops/clones/collections interleaved with transactions; every 2-/3-definition program dropped newest-first"),
- "C07": ("collector completeness/termination theorems on M_gc, lifted to the collector graph of every API program by M_struct (struct_gc_complete, leakcheck_frees_all: after unlistening and dropping everything a collection frees every object; level L-struct ties the recipes to the real graph) + leak check", "abandon programs at any point, drop everything, collect"),
+ "C07": ("collector completeness/termination theorems on M_gc, lifted to the collector graph of every API program by M_struct (struct_gc_complete, leakcheck_frees_all: after unlistening and dropping everything a collection frees every object, provided no Rust value owns a handle the collector cannot see; d6_witness: thirteen nodes survive when one does; level L-struct ties the recipes, including the rewiring of switch_s/switch_c and the detachment of once driven by the values S computes, to the real graph) + leak check", "abandon programs at any point, drop everything, collect"),
  "C09": ("order-independence: unique solution of S's equations and of the scheduler's fixed point", "metamorphic reorderings"),
 }
 
@@ -257,7 +257,7 @@ PROPS = {
     "C16": {"modules": ["SodiumVerif.Props.C16", "SodiumVerif.Props.C16b"], "audit_import": ["SodiumVerif.Props.C16", "SodiumVerif.Props.C16b"], "theorems": c_gc.C16_THEOREMS,
             "run": run_c16, "replay": gc_replay,
             "technique": "Lean 4 cost/termination theorems on M_gc with trace-call counters + exact counter correspondence with the hooked collector on graph families",
-            "level_text": "Termination (fuel never exhausted) and a linear bound on trace() calls per pass are theorems about M_gc for every graph; the model's counters must equal the real collector's hook counters exactly on ladders of diamonds, fans, chains, rings and random shared graphs at doubling sizes, and the implementation's own counters are checked against the linear bound and a doubling-ratio test.",
+            "level_text": "Termination (fuel never exhausted) and a linear bound on trace() calls per pass are theorems about M_gc for every graph; the model's counters must equal the real collector's hook counters exactly on ladders of diamonds, fans, chains, rings and random shared graphs at doubling sizes, and the implementation's own counters are checked against the linear bound and a doubling-ratio test. Stack depth is outside the theorems: a separate process collects an abandoned chain of 100 000 objects on an 8 MiB stack (known finding D29: the recursive walks overflow it) and on the harness's 1 GiB stack (must terminate).",
             "level_note": "Cost is counted in trace() invocations and tracer callbacks, never wall-clock. Trusted as for C08; the hook counters in GcNode::trace.",
             "design_ref": "DESIGN.md section 6, C16"},
     "C03": {"modules": ["SodiumVerif.Props.C03", "SodiumVerif.Props.Refine"], "audit_import": ["SodiumVerif.Props.C03", "SodiumVerif.Props.Refine"], "theorems": c_sched.C03_THEOREMS,
@@ -285,7 +285,7 @@ PROPS["C20"] = {
                  "SodiumVerif.Conc.same_sink_overwrite_witness", "SodiumVerif.Conc.unsafe_inventory"],
     "run": c_conc.check, "replay": c_conc.replay,
     "technique": "Lean 4 model of threads at schedule-point granularity (M_conc) with machine-checked counterexample executions; every enumerated schedule forced on real threads through the library's schedule hooks and compared with the model; outcomes classified against the property (partial: the property is false, known finding D7)",
-    "level_text": "PARTIAL. Positive part: serial_delivers_all / exclusive_delivers_all — if the threads' sends do not overlap (any order of whole sends, any number of threads and sends) every send is delivered exactly once and the context ends idle. Negative part: the property is false of the model and of the code: lost_send_witness, merged_txn_witness and same_sink_overwrite_witness are complete executions of M_conc (checked by kernel evaluation), and the harness replays each enumerated schedule on two real threads with baton passing at the library's schedule points; the model must predict every outcome, and every outcome is classified (lost / duplicate / residue / panic / hung). The lost-send classes are known findings (D7: no transaction lock); any other class, or a model/implementation disagreement, is reported.",
+    "level_text": "PARTIAL. Positive part: serial_delivers_all / exclusive_delivers_all — if the threads' sends do not overlap (any order of whole sends, any number of threads and sends) every send is delivered exactly once and the context ends idle. Negative part: the property is false of the model and of the code: lost_send_witness, merged_txn_witness and same_sink_overwrite_witness are complete executions of M_conc (checked by kernel evaluation), and the harness replays each enumerated schedule on two real threads with baton passing at the library's schedule points; the model must predict every outcome, and every outcome is classified (lost / duplicate / residue / panic / hung). The lost-send classes are known findings (D7: no transaction lock); any other class, or a model/implementation disagreement, is reported. Outside the model: real unforced threads in which one thread only clones and drops handles while the other sends (known finding D33: the collector's colour marks are raced; reported when it shows), and a compile-time-decided, run-time-reported check that every handle type is Send + Sync.",
     "level_note": "Schedules are at schedule-point granularity: finer interleavings, torn or reordered accesses (GcNodeData.color is a plain Cell under unsafe impl Sync, Relaxed counters), and lock fairness are outside the model; absence of a bad schedule here would prove nothing about the runtime. decide +kernel is used for the witness theorems (kernel evaluation, no extra axioms).",
     "design_ref": "DESIGN.md section 6, C20",
 }
